@@ -732,6 +732,7 @@ fn frame_event(app: &TuiApp, sh: &Shared, last_key: &str) -> Value {
     let target_on_screen = target_ip.is_some_and(|a| text.contains(&a.to_string()));
     let mut found: Vec<u8> = Vec::new();
     let mut tfound: Vec<u8> = Vec::new();
+    let mut vis: Vec<u8> = Vec::new();
     let mut resp: Vec<u8> = Vec::new();
     for (ttl, addrs) in &all_hops {
         if *ttl == 0 {
@@ -749,6 +750,9 @@ fn frame_event(app: &TuiApp, sh: &Shared, last_key: &str) -> Value {
         if target_on_screen && addrs.iter().any(|a| Some(*a) == target_ip) {
             tfound.push(*ttl);
         }
+        if addrs.iter().any(|a| text.contains(&a.to_string())) {
+            vis.push(*ttl);
+        }
     }
     let target = app.trace_info.get(app.trace_selected).map(|t| t.data.target_addr().to_string()).unwrap_or_default();
     json!({"e":"frame","sel":sel,"flow":flow.0,"flow_known":flow_known,"addr_sel":app.selected_hop_address,"trace":app.trace_selected,
@@ -757,7 +761,7 @@ fn frame_event(app: &TuiApp, sh: &Shared, last_key: &str) -> Value {
         "show_chart":app.show_chart,"show_map":app.show_map,"frozen":app.frozen_start.is_some(),
         "privacy":app.tui_config.privacy_max_ttl.map_or(-1, i64::from),"hop_count":hop_count,"nflows":flow_ids.len(),"flow_ids":flow_ids,
         "fc":app.flow_counts.iter().map(|(id, _)| id.0).collect::<Vec<_>>(),"naddrs_sel":naddrs_sel,"max_addrs":app.tui_config.max_addrs.map_or(-1, i64::from),
-        "w":sh.w,"h":sh.h,"found":found,"tfound":tfound,"resp":resp,"src_found":text.contains(&SRC.to_string()),"target_found":text.contains(&target),
+        "w":sh.w,"h":sh.h,"found":found,"tfound":tfound,"vis":vis,"resp":resp,"src_found":text.contains(&SRC.to_string()),"target_found":text.contains(&target),
         "rows":settings_rows(app),"cols":app_columns(app).into_iter().map(|(n, s)| json!({"id":n,"shown":s})).collect::<Vec<_>>(),
         "trows":trows,"srows":srows,"hops0":all_hops.len(),"addrs0":all_hops.iter().map(|(_, a)| a.len()).collect::<Vec<_>>(),
         "key":last_key,"amode":format!("{:?}", app.tui_config.address_mode)})
